@@ -41,27 +41,29 @@ func runC02(w *World, r *Report, tier string) {
 	switchRows := func(fn *ssa.Function, field string) (map[string]*ssa.Call, bool) {
 		out := map[string]*ssa.Call{}
 		var constEdges EdgeSet = EdgeSet{}
-		for _, b := range fn.Blocks {
-			for si := range b.Succs {
-				c, truth, isIf := edgeAssertion(b, si)
-				if !isIf || !truth {
-					continue
-				}
-				bo, ok := c.(*ssa.BinOp)
-				if !ok || bo.Op != token.EQL {
-					continue
-				}
-				s, isS := stringConst(bo.Y)
-				fp := fieldPath(bo.X)
-				if !isS || len(fp) == 0 || fp[len(fp)-1].Name() != field {
-					continue
-				}
-				constEdges[Edge{b, si}] = true
-				for _, in := range b.Succs[si].Instrs {
-					if call, ok := in.(*ssa.Call); ok {
-						if callee := call.Call.StaticCallee(); callee != nil && w.inModule(callee) {
-							out[s] = call
-							break
+		for _, g := range withHelpers(fn) {
+			for _, b := range g.Blocks {
+				for si := range b.Succs {
+					c, truth, isIf := edgeAssertion(b, si)
+					if !isIf || !truth {
+						continue
+					}
+					bo, ok := c.(*ssa.BinOp)
+					if !ok || bo.Op != token.EQL {
+						continue
+					}
+					s, isS := stringConst(bo.Y)
+					fp := fieldPath(bo.X)
+					if !isS || len(fp) == 0 || fp[len(fp)-1].Name() != field {
+						continue
+					}
+					constEdges[Edge{b, si}] = true
+					for _, in := range b.Succs[si].Instrs {
+						if call, ok := in.(*ssa.Call); ok {
+							if callee := call.Call.StaticCallee(); callee != nil && w.inModule(callee) && !isHelper(callee) {
+								out[s] = call
+								break
+							}
 						}
 					}
 				}
@@ -87,7 +89,7 @@ func runC02(w *World, r *Report, tier string) {
 			}
 			n++
 			ev := rres(path, ret)[len(ret.Results)-1]
-			if c, ok := ev.(*ssa.Call); !ok || (w.callKey(c) != "errors.New" && w.callKey(c) != "fmt.Errorf") {
+			if c, ok := ev.(*ssa.Call); !ok || (w.callKey(c) != "errors.New" && w.callKey(c) != "fmt.Errorf" && !alwaysNonNil(c.Call.StaticCallee(), 0)) {
 				okDefault = false
 			}
 			if !isNilConst(rres(path, ret)[0]) {
